@@ -66,6 +66,8 @@ KindTerms ==
   \cup {<<k, a, b>> : k \in ComplexBinary, a \in {Z, X}, b \in {W, Y, Num("2", Z)}}
   \cup {<<k, a>> : k \in IntUnary, a \in {I}}
   \cup {<<k, a, b>> : k \in IntBinary, a \in {I}, b \in {J, Num("int:3", I)}}
+     \* integer constants beyond the int / double-exact ranges in integer-typed graphs
+  \cup {<<k, I, Num(v, I)>> : k \in {"add", "subtract", "bitwise_and", "remainder", "maximum"}, v \in {"int:2^53+1", "int:2^31", "int:-2^31-1"}}
   \cup {<<k, a, b>> : k \in RelKinds, a \in {X, Num("0", X)}, b \in {Y, Num("1", X)}}
   \cup {<<k, a, b>> : k \in {"eq", "ne"}, a \in {Z}, b \in {W}}
   \cup {<<k, a, b>> : k \in {"logical_and", "logical_or", "logical_xor"}, a \in {Bb, <<"lt", X, Y>>}, b \in {Cc, <<"bool", TRUE>>}}
